@@ -210,6 +210,9 @@ func runC19(r *mc.Run) {
 				if f.svn {
 					n = 4 + len(c19SvnSpellings) // further spellings of a number
 				}
+				if f.rtmr {
+					n = 7 // states 5 / 6: a flag that names some registers and leaves the others empty (unchecked) / all empty
+				}
 				flagS[i] = c.Choose("flag."+f.name, n)
 			}
 		}
@@ -321,6 +324,12 @@ func runC19(r *mc.Run) {
 					case 4:
 						hs[0], hs[1], hs[2] = "", "", hexs(world.Fill("c19-other-rtmr", 48))
 						flagState = 2
+					case 5: // the flag pins two registers and leaves two unchecked: that is the whole expectation, whatever the config lists
+						hs[2], hs[3] = "", ""
+						flagState = 1
+					case 6:
+						hs = []string{"", "", "", ""}
+						flagState = 1
 					}
 					val = strings.Join(hs, ",")
 				default:
